@@ -269,6 +269,8 @@ ProcessChecks3(e, m, p, r, dc, R, n, pecok, acc, xdevs, panicked) ==
       THEN Chk("C04", Len(R) = n /\ n >= 4 /\ R[1] = p[7] * 2 /\ R[2] = 15 /\ R[3] = n - 4 /\ R[4] = m.addr * 2 + 1,
                TRUE, {}) ELSE Skip("C04"),
       IF ~panicked /\ n >= 0 /\ acc
+      THEN Chk("C07", Len(R) = n /\ n >= 13 /\ R[10] \div 32 = 0 /\ R[11] = Cmd(p), TRUE, {}) ELSE Skip("C07"),
+      IF ~panicked /\ n >= 0 /\ acc
       THEN Chk("C05", Len(R) = n /\ n >= 10 /\ R[5] = 1 /\ R[6] = p[7] /\ R[7] = m.addr /\ R[8] \div 16 = 12
                       /\ R[9] = MT_CONTROL, TRUE, {}) ELSE Skip("C05") }
 
